@@ -248,6 +248,7 @@ impl Monitor for C04 {
             ("ethertype", tier.pick(65_536, 65_536 * 2)),
             ("corpus", tier.pick(400_000, 8_000_000)),
             ("api", tier.pick(400_000, 8_000_000)),
+            ("big", tier.pick(30_000, 1_500_000)),
         ]
     }
 
@@ -267,13 +268,18 @@ impl Monitor for C04 {
                 }
                 None => rep.selfcheck_fail("corpus file missing".into()),
             },
-            "clean" | "hostile" => {
-                let mut o = if engine == "clean" { GenOpts::clean() } else { GenOpts::hostile() };
+            "clean" | "hostile" | "big" => {
+                let mut o = if engine == "clean" || (engine == "big" && rng.bool()) { GenOpts::clean() } else { GenOpts::hostile() };
+                gen::set_big(engine == "big");
                 // PacketHeaders has no SLL entry point
                 if rng.chance(1, 2) {
                     o.start = *rng.pick(&[gen::StartSel::Eth, gen::StartSel::EtherType, gen::StartSel::Ip]);
                 }
                 let case = gen::gen_case(rng, &o);
+                gen::set_big(false);
+                if engine == "big" && case.bytes.len() > 60_000 {
+                    rep.count("big_cases");
+                }
                 self.pair(rep, &case, Family::Sliced, Family::Headers);
                 self.pair(rep, &case, Family::LaxSliced, Family::LaxHeaders);
             }
